@@ -243,13 +243,14 @@ def documented_cmp(k1, k2):
 
 # ------------------------------------------------------------------ generators
 CHROM_SETS = [
+    ["0", "1", "2", "10", "X"],          # "0": a typed scheme reads it as int 0 (falsy)
     ["1", "2", "10", "X"],
     ["chr1", "chr2", "chr10", "chrX"],
     ["1", "2", "10", "X", "MT", "GL000192.1"],
 ]
-POSITIONS = [1, 2, 9, 10, 11, 99, 100, 1000]
-TUMORS = ["T1", "T2", "T10", "TCGA-A"]
-NORMALS = ["N1", "N2", "N10"]
+POSITIONS = [0, 1, 2, 9, 10, 11, 99, 100, 1000]      # 0: falsy; invalid (missing) under a typed one-based column
+TUMORS = ["T1", "T2", "T10", "TCGA-A", ""]      # "": falsy text (typed: rejected -> missing)
+NORMALS = ["N1", "N2", "N10", ""]                # "": typed nullable -> None
 
 
 def gen_contigs(rng, chroms, mode):
